@@ -144,9 +144,13 @@ def run_check(pid: str, tier: str, level: str, parts: List[Part], assumptions: L
         if r.violation is not None:
             rec = r.violation
             path = os.path.join(OUT, "replays", "%s-%s-%d.json" % (pid, part.name, int(time.time())))
-            rp = engine.replay(part.harness, rec)
-            rec["replay"] = {k: (v if k != "violation" else (v or {}).get("msg")) for k, v in rp.items()}
             rec["part"] = part.name
+            if "neither returns nor raises" in str(rec.get("msg", "")):
+                # a blocked call was interrupted in this process (a lock of the library may still be held): confirm in a fresh one
+                rp = _replay_in_subprocess(pid, rec, path)
+            else:
+                rp = engine.replay(part.harness, rec)
+            rec["replay"] = {k: (v if k != "violation" else (v or {}).get("msg")) for k, v in rp.items()}
             with open(path, "w") as f:
                 json.dump(engine._jsonable(rec), f, indent=1)
             real = None
@@ -284,6 +288,21 @@ def run_check(pid: str, tier: str, level: str, parts: List[Part], assumptions: L
         pid, tier, {0: "HOLDS within bounds", 1: "VIOLATION", 2: "INCONCLUSIVE"}[status], paths, total.checks,
         total.solver_calls, total.solver_s, wall))
     return status
+
+
+def _replay_in_subprocess(pid: str, rec: Dict[str, Any], path: str) -> Dict[str, Any]:
+    import subprocess
+
+    with open(path, "w") as f:
+        json.dump(engine._jsonable(rec), f, indent=1)
+    here = os.path.dirname(os.path.abspath(__file__))
+    try:
+        p = subprocess.run([sys.executable, "-u", os.path.join(here, "props.py"), pid, "--replay", path], capture_output=True, text=True, timeout=900, cwd=here)
+    except subprocess.TimeoutExpired:
+        return {"reproduced": False, "violation": None, "error": "replay in a fresh process timed out"}
+    ok = "concrete replay: reproduced=True" in p.stdout
+    msg = next((l for l in p.stdout.splitlines() if l.startswith("concrete replay:")), p.stdout[-300:] + p.stderr[-300:])
+    return {"reproduced": ok, "violation": {"msg": msg} if ok else None, "error": None if ok else msg}
 
 
 def replay_file(pid: str, parts: List[Part], path: str) -> int:
